@@ -145,6 +145,11 @@ def rule_accessors(rep, pdb):
             if ok:
                 g, det = _ranges_ok(pdb, ctx, e.node, ranges, {tgt[1]: ROWS, tgt[2]: COLS})
                 ok = ok and g
+            elif len(e.loops) == 1 and e.target == F(P(0), "mat") and e.value == P(1):
+                # every element of the flat storage: `self.mat.fill(elem)` / `for x in self.mat.iter_mut() { *x = elem }`
+                r = for_range(ctx, e.loops[0])
+                ok = r is not None and e.index == r[0] and r[1:5] == (num(0), LEN(F(P(0), "mat")), False, False)
+                det = "every element of the flat storage 0..len(mat)"
         rep.add("accessor/fill", "self(i,j) = elem for all i<rows, j<cols", ok, fn["body"], det, where=loc(fn["body"]))
     # fill_diag
     fn = _need(rep, pdb, "%s::fill_diag" % M, "accessor/fill_diag", "self(i,i) = elem for i < min(rows, cols)")
